@@ -2774,7 +2774,7 @@ def model_term(k, st, r, obs, case):
             flat = [res_id(x, cols) for t in a["idx"] for x in t]
             if any(len(t) != 2 for t in a["idx"]) or not _ints(flat) or any(abs(x) >= 2 ** 31 for x in flat):
                 return None
-            return "verdict_implies (verdict_of (relatedness_weighted_entry C09_relatedness_weighted_checks_indexes %s %s)) %s" % (
+            return "verdict_implies_raise (verdict_of (relatedness_weighted_entry C09_relatedness_weighted_checks_indexes %s %s)) %s" % (
                 cz(cols), clist(flat), v)
         elif opn == "ts.statk" and a.get("indexes") is not None and a.get("stat") in MULTI_WAY:
             k = MULTI_WAY[a["stat"]]
